@@ -10,7 +10,7 @@ RULE = ('cases = one real stack against a scripted conforming peer written from 
         'data link layers, in four roles: stack originator vs reference responder (grant policy random / maximum / one packet / enumerated lists of grant '
         'sizes, 0-3 hold CTS <0.5 s apart before the first grant and between windows, reply latency 0..150 ms, zero = answered inside the stack\'s send '
         'call on J1939-21), reference originator (RTS limit 1..255, packet pacing 0..190 ms) vs stack responder, stack BAM sender, reference BAM sender '
-        '(spacing 50..200 ms / 10..200 ms FD) vs stack receiver; plus stack-to-stack runs re-decoded by the sniffer; plus series of 5-9 messages in a row (broadcasts and destination-specific ones, some overlapping) from one stack object, each accepted and decoded independently; sizes over the whole range incl. '
+        '(spacing 50..200 ms / 10..200 ms FD) vs stack receiver; plus stack-to-stack runs re-decoded by the sniffer; plus series of 5-9 messages in a row (broadcasts and destination-specific ones, some overlapping) from one stack object, each accepted and decoded independently, and series of 4-7 messages from the reference originator to one stack object (broadcasts re-using one session number back to back), each delivered exactly once; sizes over the whole range incl. '
         'boundaries, windows 1..255, PGNs with data page 0/1; oracle = the independent sniffer decodes every frame of the stack (identifier fields, '
         'control bytes, sizes, packet counts, LE PGN, 1-based in-order sequence numbers, FF padding and reserved bytes, legal FD lengths) to exactly the '
         'submitted message, the conforming peer reassembles it, conforming input is delivered exactly once with PGN/SA/payload and acknowledged '
@@ -46,6 +46,8 @@ def cases(tier, seed):
     # series of messages from one stack object
     for i in range(120 if tier == 'quick' else 1500):
         out.append(dict(kind='series', layer='j1939-22' if i % 2 else 'j1939-21', seed=rng.randrange(1 << 30)))
+    for i in range(120 if tier == 'quick' else 1500):
+        out.append(dict(kind='series_rx', layer='j1939-22' if i % 2 else 'j1939-21', seed=rng.randrange(1 << 30)))
     return out
 
 
@@ -115,9 +117,82 @@ def run_series(case):
     return res
 
 
+def run_series_rx(case):
+    """4-7 messages in a row from the REFERENCE originator to one stack object, broadcasts re-using the same session number as soon as the
+    previous one is finished (a conforming originator may), destination-specific ones in between: each is delivered exactly once"""
+    from vt.world import World
+    from ref.peers import Originator
+    layer = case['layer']
+    fd = layer == 'j1939-22'
+    rng = random.Random(case['seed'])
+    W = World(case['seed'], layer, (0.0001, 0.002))
+    sim = W.sim
+    viol = M.Violations()
+    tag = dict(layer=layer, role='series_rx')
+    A = W.stack('A', max_cmdt_packets=rng.choice([1, 3, 255]))
+    ca = W.ca(A, 0x10, identity_number=1)
+    W.listen_ca(ca, 'A')
+    O = Originator(W.bus, sim, rng, 0x20, fd, pacing=(0.0005, 0.003), prio=6)
+    W.run(0.01)
+    unit = 60 if fd else 7
+    msgs = []
+    ses = rng.randrange(16) if fd else 0
+    for i in range(rng.randint(4, 7)):
+        bam = rng.random() < 0.65
+        n = rng.randint(2, 4)
+        size = max(unit * n - rng.randrange(unit), 61 if fd else 9)
+        pay = bytes([i] + [rng.randrange(256) for _ in range(size - 1)])
+        msgs.append(dict(i=i, bam=bam, pay=pay, pgn=(0xFE00 | rng.randrange(256)) if bam else (0xD0 + i) << 8, t=None, gap=rng.choice([0.002, 0.02, 0.3])))
+    finished = []
+
+    def start(k):
+        if k >= len(msgs):
+            finished.append(sim.now)
+            return
+        m = msgs[k]
+        m['t'] = sim.now
+        if m['bam']:
+            spacing = (0.0105, 0.013) if fd else (0.051, 0.06)
+            d = O.bam(m['pgn'], m['pay'], spacing, session=ses)            # returns the time until its last frame
+            sim.after(d + 0.0005 + m['gap'], start, k + 1)                    # the next one right after this one is through
+        else:
+            st = O.start(0x10, m['pgn'], m['pay'], 255, session=(ses + 1) % 16 if fd else 0)
+            t_lim = sim.now + 3.0
+
+            def poll():
+                if st.get('done') or st.get('aborted') or sim.now > t_lim:
+                    sim.after(m['gap'], start, k + 1)
+                else:
+                    sim.after(0.002, poll)
+            sim.after(0.002, poll)
+    sim.at(0.02, start, 0)
+    t_end = 0.02 + 12.0
+    while not finished and sim.now < t_end and not W.runaway:
+        W.run(sim.now + 0.5)
+    W.run(sim.now + 3.0)
+    obs = dict(exchanges=1, series_rx_messages=len(msgs), frames=len(W.bus.frames), cts_checked=0, dt_checked=0, holds_exercised=0, bam_gaps_measured=0,
+               cmdt_gaps_measured=0, stack_originator=0, stack_responder=1, zero_latency=0, background_timer=0)
+    got = [d[4] for d in W.deliv['A'] if d[3] == 0x20]
+    for m in msgs:
+        if got.count(m['pay']) != 1:
+            viol.add('stack_delivery', 'series from the reference originator: message #%d (%s, %d bytes, started %.3f) was delivered %d times'
+                     % (m['i'], 'BAM session %d' % ses if m['bam'] else 'RTS/CTS', len(m['pay']), m['t'], got.count(m['pay'])), **tag)
+    extra = [g for g in got if g not in [m['pay'] for m in msgs]]
+    for g in extra[:2]:
+        viol.add('stack_delivery', 'series from the reference originator: the stack delivered %d bytes that nobody sent' % len(g), how='extra', **tag)
+    M.m_live(viol, W, layer)
+    M.m_quiet(viol, W, layer, what='3 s after the series')
+    res = dict(violations=list(viol), inconclusive=None, sig=repr(('series_rx', layer, len(msgs))), nontrivial=True, obs=obs,
+               sample=dict(case=case, messages=[(m['i'], 'bam' if m['bam'] else 'p2p', len(m['pay']), round(m['t'], 3)) for m in msgs]))
+    W.close()
+    return res
+
+
 def run_case(case):
     if case.get('kind') == 'series':
         return run_series(case)
+    if case.get('kind') == 'series_rx':
+        return run_series_rx(case)
     r = xchg.run_exchange(case)
     viol = M.Violations()
     for (kind, msg) in r['findings']:
